@@ -497,6 +497,9 @@ type vRun struct {
 	idb  InvoiceDB
 	clk  *clock.TestClock
 	cfg  RegistryConfig
+	// every htlc ever notified, in order of first arrival (what the links hold)
+	arrived    map[int]*vHtlc
+	arrivedOrd []int
 }
 
 func vCState(s ContractState) string {
@@ -651,6 +654,13 @@ func (r *vRun) add(v *vInvoice) {
 }
 
 func (r *vRun) notify(h *vHtlc, height int32) {
+	if r.arrived == nil {
+		r.arrived = map[int]*vHtlc{}
+	}
+	if _, ok := r.arrived[h.Key]; !ok {
+		r.arrived[h.Key] = h
+		r.arrivedOrd = append(r.arrivedOrd, h.Key)
+	}
 	pl := r.u.payload(h)
 	hh := *h
 	hh.Height = height
@@ -1416,11 +1426,13 @@ func (r *vRun) restart(sent []*vHtlc, height int32) {
 			}
 		}
 	}
-	seen := map[int]bool{}
-	for _, h := range sent {
-		if held[h.Key] && !seen[h.Key] {
-			seen[h.Key] = true
-			hh := *h
+	// every held htlc that ever arrived (however it was first delivered: `sent`
+	// only lists the scripted first deliveries, a random "replay" pick may have
+	// been the first arrival of an htlc)
+	_ = sent
+	for _, k := range append([]int{}, r.arrivedOrd...) {
+		if held[k] {
+			hh := *r.arrived[k]
 			hh.AfterRestart = true
 			r.notify(&hh, height)
 		}
